@@ -557,5 +557,6 @@ func extractC04() *lean {
 	l.def("matchesPathBody", "String", fmt.Sprintf("%q", mpBody), mpBody)
 	extractC04Limiter(l, eng)
 	extractC04KeysAndJti(l, akF, mw)
+	extractC04Config(l)
 	return l
 }
